@@ -11,22 +11,34 @@ from vf.ref import ber
 from vf.ref import ldap as R
 
 
-def check_one(m: t.Any) -> t.Optional[t.Tuple[str, str]]:
+def check_one(m: t.Any) -> t.List[t.Tuple[str, str]]:
+    out: t.List[t.Tuple[str, str]] = []
     try:
         b = m.pack(K.OPTS)
     except BaseException as e:
-        return (f"pack-raises:{K.exc_key(e)}", f"pack raised {type(e).__name__}: {e}")
+        return [(f"pack-raises:{K.exc_key(e)}", f"pack raised {type(e).__name__}: {e}")]
     try:
         want = A.absmsg(m, K.OPTS)
     except A.NotBytes as e:
-        return (f"inconsistent-value:{e.tag}", str(e))
+        return [(f"inconsistent-value:{e.tag}", str(e))]
     try:
         got = R.decode_message(b, strict=True)
     except ber.BerError as e:
-        return (f"not-rfc4511:{type(m).__name__}:{K.exc_key(e)}", f"strict RFC 4511 decoder rejects {b.hex()[:80]}: {e}")
+        out.append((f"not-rfc4511:{type(m).__name__}:{K.exc_key(e)}", f"strict RFC 4511 decoder rejects {b.hex()[:80]}: {e}"))
+        # keep checking the rest of the message when the only problem is the P/C bit of the protocolOp
+        # (so a listed finding about that bit cannot hide anything else in the same message)
+        try:
+            tree, _end = ber.parse_one(b, 0, strict=True)
+            op = tree.children[1]
+            if op.children == []:
+                op.children, op.content, op.constructed = None, b"", False
+            got = R.decode_message(ber.encode(tree), strict=True)
+        except (ber.BerError, IndexError, TypeError):
+            return out
     d = K.diff_path(want, got)
     if d:
-        return (f"decodes-differently:{type(m).__name__}:{K.strip_idx(d)}", f"independent decoder reads a different message at {d}")
+        out.append((f"decodes-differently:{type(m).__name__}:{K.strip_idx(d)}", f"independent decoder reads a different message at {d}"))
+        return out
     for c in got["controls"] or []:
         if c["controlType"] == R.PAGED_OID:
             # RFC 2696: the control value is itself BER (realSearchControlValue)
@@ -34,10 +46,11 @@ def check_one(m: t.Any) -> t.Optional[t.Tuple[str, str]]:
             try:
                 pv = R.decode_paged_value(c["controlValue"] or b"", strict=True)
             except ber.BerError as e:
-                return (f"paged-value-not-ber:{K.exc_key(e)}", f"paged-results control value {(c['controlValue'] or b'').hex()[:60]} is not RFC 2696 BER: {e}")
+                out.append((f"paged-value-not-ber:{K.exc_key(e)}", f"paged-results control value {(c['controlValue'] or b'').hex()[:60]} is not RFC 2696 BER: {e}"))
+                continue
             if not any(getattr(x, "size", None) == pv["size"] and getattr(x, "cookie", None) == pv["cookie"] for x in src):
-                return ("paged-value-differs", f"paged-results control value decodes to {pv}")
-    return None
+                out.append(("paged-value-differs", f"paged-results control value decodes to {pv}"))
+    return out
 
 
 _STATE: t.Dict[str, t.Any] = {}
@@ -56,8 +69,8 @@ def _work(job: U.Job) -> evid.Local:
             first = False
             if len(job[1]) == 2:
                 loc.sample({"msg": A.src(m)[:300], "bytes": m.pack(K.OPTS).hex()[:120]}, cap=1)
-        if r:
-            loc.violation(r[0], r[1], {"msg": A.src(m)})
+        for v in r:
+            loc.violation(v[0], v[1], {"msg": A.src(m)})
     return loc
 
 
@@ -103,7 +116,7 @@ def run(ctx: evid.Ctx) -> None:
 
 def replay(case: t.Dict[str, t.Any], key: t.Optional[str] = None) -> t.Tuple[bool, str]:
     m = A.unsrc(case["msg"])
-    r = check_one(m)
-    if r is None:
+    r = [v for v in check_one(m) if key is None or v[0] == key]
+    if not r:
         return True, f"{case['msg'][:200]} encodes to RFC 4511 BER"
-    return False, f"{case['msg'][:400]}\n  bytes {m.pack(K.OPTS).hex()[:200]}\n  {r[0]}: {r[1]}"
+    return False, f"{case['msg'][:400]}\n  bytes {m.pack(K.OPTS).hex()[:200]}\n  " + "\n  ".join(f"{v[0]}: {v[1]}" for v in r)
